@@ -899,6 +899,8 @@ class _SFTPFileCopier(_SFTPParallelIO[int]):
             else:
                 ranges = _request_nonsparse_range(0, self._total_bytes)
 
+            end = 0
+
             if self._srcfs == self._dstfs and \
                     isinstance(self._srcfs, SFTPClient) and \
                     self._srcfs.supports_remote_copy:
@@ -908,6 +910,7 @@ class _SFTPFileCopier(_SFTPParallelIO[int]):
                         cast(SFTPClientFile, self._dst),
                         offset, length, offset)
 
+                    end = offset + length
                     self._bytes_copied += length
 
                     if self._progress_handler:
@@ -916,6 +919,8 @@ class _SFTPFileCopier(_SFTPParallelIO[int]):
                                                self._total_bytes)
             else:
                 async for self._offset, self._bytes_left in ranges:
+                    end = self._offset + self._bytes_left
+
                     async for _, datalen in self.iter():
                         self._bytes_copied += datalen
 
@@ -931,6 +936,11 @@ class _SFTPFileCopier(_SFTPParallelIO[int]):
                     setattr(exc, 'offset', self._bytes_copied)
 
                     raise exc
+
+            if self._sparse and end < self._total_bytes:
+                # The source ends in a hole, which no data range covers.
+                # Extend the destination to the full size of the source.
+                await self._dst.write(b'\0', self._total_bytes - 1)
         finally:
             if self._src: # pragma: no branch
                 await self._src.close()
